@@ -791,3 +791,6 @@ ITEMS = [
     Item('pipelines', None, [('whole-resource-steps', K10.nat_whole_resource_steps), ('conservation', nat_restructure), ('concatenate-in-place', nat_concatenate_in_place), ('concatenate-projection', nat_concatenate_projection), ('load-reuse', nat_load_reuse), ('duplicate-aliasing', nat_duplicate_aliasing)], None),
     Item('recorded-findings', None, [('bounded', KF.nat_findings_c16)], 'dataflows/processors/sources.py::sources.process_datapackage'),
 ]
+
+from contracts import reuse as _REUSE   # noqa: E402
+ITEMS.append(Item('second-use', None, [('catalogue', _REUSE.nat_second_use_for('C16'))], 'dataflows/processors/concatenate.py::concatenate.func'))
